@@ -803,6 +803,9 @@ func goroutinePanicSites(p *Program, g *callgraph.Graph, fn *ssa.Function) (out 
 					}
 					out = append(out, panicSite{"panic in " + shortFn(f), p.InstrPos(x), "a goroutine started on behalf of a connection runs outside the per-connection recover and can reach this explicit panic via " + path + ": client input that gets here terminates the whole process"})
 				case *ssa.TypeAssert:
+					if !x.CommaOk && poolGetAlwaysOfType(p, x) {
+						continue // pool.Get().(T) of a pool whose New and every Put supply a T
+					}
 					if !x.CommaOk {
 						out = append(out, panicSite{"unchecked type assertion in " + shortFn(f), p.InstrPos(x), "unchecked type assertion " + RenderN(x, 2) + " in an unrecovered goroutine (" + path + ")"})
 					}
@@ -955,4 +958,58 @@ func c01CallersHold(p *Program, fn *ssa.Function, write bool, okMu func(ssa.Valu
 		}
 	}
 	return nsites > 0
+}
+
+// poolGetAlwaysOfType: ta asserts the result of (*sync.Pool).Get on a package-level pool to T, the pool's New function
+// returns a T on every path and every Put on that pool anywhere in the program stores a T: the assertion cannot fail.
+func poolGetAlwaysOfType(p *Program, ta *ssa.TypeAssert) bool {
+	call, ok := ta.X.(*ssa.Call)
+	if !ok || !MethodIs(call.Call.StaticCallee(), "sync", "Pool", "Get") || len(call.Call.Args) != 1 {
+		return false
+	}
+	g, ok := call.Call.Args[0].(*ssa.Global)
+	if !ok {
+		return false
+	}
+	want := ta.AssertedType
+	okNew, okPuts := false, true
+	for _, fn := range p.Funcs() {
+		for _, b := range fn.Blocks {
+			for _, in := range b.Instrs {
+				switch x := in.(type) {
+				case *ssa.Store:
+					// pool.New = func() interface{} { return … } in the package initialiser
+					fa, isFA := x.Addr.(*ssa.FieldAddr)
+					if !isFA || fa.X != ssa.Value(g) || fieldNameOf(fa) != "New" {
+						continue
+					}
+					var nf *ssa.Function
+					switch v := x.Val.(type) {
+					case *ssa.Function:
+						nf = v
+					case *ssa.MakeClosure:
+						nf, _ = v.Fn.(*ssa.Function)
+					}
+					if nf == nil || nf.Blocks == nil {
+						return false
+					}
+					okNew = len(Returns(nf)) > 0
+					for _, r := range Returns(nf) {
+						mi, isMI := RetVals(r)[0].(*ssa.MakeInterface)
+						if !isMI || !types.Identical(mi.X.Type(), want) {
+							okNew = false
+						}
+					}
+				case ssa.CallInstruction:
+					if MethodIs(x.Common().StaticCallee(), "sync", "Pool", "Put") && len(x.Common().Args) == 2 && x.Common().Args[0] == ssa.Value(g) {
+						mi, isMI := x.Common().Args[1].(*ssa.MakeInterface)
+						if !isMI || !types.Identical(mi.X.Type(), want) {
+							okPuts = false
+						}
+					}
+				}
+			}
+		}
+	}
+	return okNew && okPuts
 }
